@@ -193,7 +193,8 @@ def run(ck, m):
     compared = [norm(e).replace("renderable_data.", "data.") for e in cur_side.elts]
     # the details compared must be the ones stored WITH THE ENTRY looked up under the current frame number
     oth_t = norm(oth_side)
-    per_entry = oth_t == "cache[frame_no][1:]"
+    per_entry = oth_t == "cache[frame_no][1:]" or (isinstance(oth_side, ast.Tuple) and len(oth_side.elts) == len(cur_side.elts)
+                                                   and [norm(e) for e in oth_side.elts] == [f"cache[frame_no][{i + 1}]" for i in range(len(oth_side.elts))])      # (the same components, unpacked)
     ck.ob("R1", miss_if, per_entry,
           f"the settings a cached frame is validated against (`{norm(oth_side)}` = `{oth_t[:80]}`) are not the ones stored with that entry (cache[frame_no][1:]): details shared between entries say nothing about "
           "the settings an individual frame was rendered with, so after a setting changed and one frame was re-rendered every other stale frame is served as valid", stmt="cache validity details are per entry: cache[frame_no][1:]")
